@@ -625,6 +625,8 @@ def run(rep, tier, seed, replay):
             base = {"desc": d["desc"], "kind": d["kind"], "mode": r["mode"], "keymask": r["km"], "premask": r["pm"], "measured_run": r}
             if r["status"] == "PANIC":
                 direct.append(("panic:satisfy", "get_satisfaction panicked: %s" % d["desc"], base))
+            if r["status"] == "UNPARSED":
+                direct.append(("unparsed", "could not measure the returned satisfaction: %s" % d["desc"], base))
             if r["status"] != "OK":
                 continue
             st["sat/ok/%s/%s" % (d["kind"], r["mode"])] += 1
